@@ -20,8 +20,8 @@ import (
 
 func fnEncode() *run.Fn {
 	return &run.Fn{Name: "HorizontalIDToQuadkey", Invoke: func(a []w.Val) w.Val {
-		if n, ok := parseFields(w.AsStr(a[0]), 3); !ok || !small(n[0]) {
-			return skipped
+		if n, ok := parseFields(w.AsStr(a[0]), 3); !ok || !small(n[0]) || n[0] > 31 {
+			return skipped // from zoom 32 on the int64 sum wraps: outside the judged range
 		}
 		return w.I(transform.VerifConvertHorizontalIDToQuadkey(w.AsStr(a[0])))
 	}}
@@ -230,6 +230,15 @@ func fnRoundTrip() *run.Fn {
 				items = append(items, object.NewQuadkeyAndVerticalID(g.QuadkeyZoom(), p[0], g.VerticalZoom(), p[1], g.MaxHeight(), g.MinHeight()))
 			}
 		}
+		// the groups come from the implementation: if their zooms are not the requested ones the second call could be huge; report the
+		// groups with an unusable second component instead (the checker then rejects the observation)
+		second := 0.0
+		for _, g := range gs {
+			second += cost1(g.QuadkeyZoom(), g.VerticalZoom(), w.AsInt(a[5]), w.AsInt(a[6])) * float64(len(g.InnerIDList()))
+		}
+		if second > 4*costLimit {
+			return w.L(groupsVal(gs), w.S("second call not made: too large"))
+		}
 		back, err := transform.ConvertQuadkeysAndVerticalIDsToExtendedSpatialIDs(items, w.AsInt(a[5]), w.AsInt(a[6]))
 		if err != nil {
 			return w.Err{V: w.Nil{}}
@@ -239,6 +248,13 @@ func fnRoundTrip() *run.Fn {
 }
 
 // ---------------------------------------------------------------------------------------------- generators
+
+func min64(a, b int64) int64 {
+	if a < b {
+		return a
+	}
+	return b
+}
 
 func clamp(v, lo, hi int64) int64 {
 	if v < lo {
@@ -328,7 +344,7 @@ func (e *emitter) keyCase() {
 			h = qzoom(g)
 			x, y = hidx(g, h)+(int64(1)<<uint(h)), hidx(g, h)|(int64(1)<<uint(h+g.Int63n(3)))
 		case 2:
-			h = g.Pick(0, -1, 32, 33, 35)
+			h = g.Pick(0, -1, 0, -3)
 			x, y = g.Int63n(1<<31), g.Int63n(1<<31)
 		default:
 			h = qzoom(g)
@@ -406,6 +422,11 @@ func genSpecs(g *Gen, h0, v0 int64, sameZoom bool) []idspec {
 	if g.Chance(0.2) {
 		n = 1
 	}
+	return genSpecsN(g, h0, v0, sameZoom, false, n)
+}
+
+// sid: spatial IDs (horizontal and vertical zoom are one number): every nested variant moves both zooms together
+func genSpecsN(g *Gen, h0, v0 int64, sameZoom, sid bool, n int) []idspec {
 	base := idspec{h0, hidx(g, h0), hidx(g, h0), v0, g.VIndex(v0)}
 	var l []idspec
 	for len(l) < n {
@@ -413,6 +434,32 @@ func genSpecs(g *Gen, h0, v0 int64, sameZoom bool) []idspec {
 		k := g.Intn(11)
 		if sameZoom && (k == 2 || k == 3 || k >= 8) {
 			k = 4 + g.Intn(2)
+		}
+		if sid && len(l) > 0 && (k == 2 || k == 3 || k >= 8) {
+			p := l[g.Intn(len(l))]
+			d := g.Int63n(3)
+			switch {
+			case k == 2 || k == 10: // ancestor
+				if p.h-d < 0 {
+					d = p.h
+				}
+				s = idspec{p.h - d, p.x >> uint(d), p.y >> uint(d), p.h - d, p.f >> uint(d)}
+			case k == 3: // descendant
+				if d > 1 {
+					d = 1
+				}
+				if p.h+d > h0+1 || p.h+d > 35 {
+					d = 0
+				}
+				s = idspec{p.h + d, p.x<<uint(d) + g.Int63n(1<<uint(d)), p.y<<uint(d) + g.Int63n(1<<uint(d)), p.h + d, p.f<<uint(d) + g.Int63n(1<<uint(d))}
+			default: // the same z/f/x/y numbers one zoom finer (a different voxel)
+				s = p
+				if p.h+1 <= 35 && p.h+1 <= h0+1 {
+					s.h, s.v = p.h+1, p.h+1
+				}
+			}
+			l = append(l, s)
+			continue
 		}
 		switch {
 		case len(l) == 0 || k == 0:
@@ -565,6 +612,23 @@ func idStrings(g *Gen, specs []idspec, sid bool) ([]string, []string) {
 			ids = append(ids, s.eid())
 		}
 	}
+	if len(ids) > 0 && g.Chance(0.05) { // accepted non-canonical numerals inside a valid ID: "+1", "007", "-0"
+		i := g.Intn(len(ids))
+		fs := strings.Split(ids[i], "/")
+		j := g.Intn(len(fs))
+		switch {
+		case fs[j] == "0" && g.Chance(0.5):
+			fs[j] = "-0"
+		case !strings.HasPrefix(fs[j], "-") && g.Chance(0.5):
+			fs[j] = "+" + fs[j]
+		case strings.HasPrefix(fs[j], "-"):
+			fs[j] = "-00" + fs[j][1:]
+		default:
+			fs[j] = "00" + fs[j]
+		}
+		ids[i] = strings.Join(fs, "/")
+		tags = append(tags, "noncanonical-numeral")
+	}
 	if len(ids) > 0 && g.Chance(0.04) { // malformed
 		m := g.Malformed()
 		if sid && g.Chance(0.5) {
@@ -647,11 +711,42 @@ func (e *emitter) e2qCase(fn string) {
 	sid := fn == "S2Q"
 	h0, v0 := e.baseZooms(sid)
 	same := g.Chance(0.3)
-	specs := genSpecs(g, h0, v0, same || sid)
+	shape := g.Intn(100)
+	var specs []idspec
+	switch {
+	case shape < 5: // long list (20..60 IDs), zoom-out or equal zooms only: many groups behind one de-duplication map
+		if h0 < 4 {
+			h0 = 4 + g.Int63n(28)
+			if sid {
+				v0 = h0
+			}
+		}
+		specs = genSpecsN(g, h0, v0, true, sid, 20+g.Intn(41))
+	case shape < 11: // deep zoom-out: 30..35 -> 1..3 horizontally, 30..35 -> 0..2 vertically (negative f: floor, not truncation)
+		h0 = 30 + g.Int63n(6)
+		v0 = 30 + g.Int63n(6)
+		if sid {
+			v0 = h0
+		}
+		specs = genSpecsN(g, h0, v0, same, sid, 1+g.Intn(6))
+	default:
+		n := g.Intn(7)
+		if g.Chance(0.2) {
+			n = 1
+		}
+		specs = genSpecsN(g, h0, v0, same, sid, n)
+	}
 	ids, tags := idStrings(g, specs, sid)
 	oh, ov := outZooms(g, h0, v0, 256)
 	if same {
 		oh, ov = clamp(h0, 1, 31), v0
+	}
+	if shape < 5 {
+		oh, ov = clamp(h0-g.Int63n(4), 1, 31), clamp(v0-g.Int63n(5), 0, 35)
+		tags = append(tags, "long-list")
+	} else if shape < 11 {
+		oh, ov = 1+g.Int63n(3), g.Int63n(3)
+		tags = append(tags, "deep-zoom-out")
 	}
 	if g.Chance(0.05) { // invalid output zooms
 		if g.Chance(0.6) {
@@ -827,6 +922,12 @@ func (e *emitter) q2eCase(fn string) {
 	z0 := qzoom(g)
 	v0 := g.Zoom()
 	n := g.Intn(7)
+	shape := g.Intn(100)
+	if shape < 5 { // long list (zoom-out / equal zooms below)
+		n = 20 + g.Intn(41)
+	} else if shape < 11 { // one key of zoom 31, output zooms 34 / 35 below
+		z0, n = 31, 1
+	}
 	bx, by := hidx(g, z0), hidx(g, z0)
 	var items w.List
 	var tags []string
@@ -848,6 +949,9 @@ func (e *emitter) q2eCase(fn string) {
 			}
 		case g.Chance(0.4): // same tile, other f
 			t = it{z0, mkKey(z0, bx, by), v0, g.VIndex(v0)}
+		case shape >= 11 && shape < 20: // a key of a distant zoom in the same call
+			zz, vv := qzoom(g), g.Zoom()
+			t = it{zz, mkKey(zz, hidx(g, zz), hidx(g, zz)), vv, g.VIndex(vv)}
 		default:
 			t = it{z0, mkKey(z0, hidx(g, z0), hidx(g, z0)), v0, g.VIndex(v0)}
 		}
@@ -886,25 +990,40 @@ func (e *emitter) q2eCase(fn string) {
 			vmin = t.vz
 		}
 	}
+	// heights per item: mostly 0/0; sometimes other equal pairs mixed in; sometimes one inverted / NaN element among valid ones
 	hmode := g.Intn(15)
-	for _, t := range raw {
+	inv := -1
+	if hmode == 1 && n > 0 {
+		inv = g.Intn(n)
+		tags = append(tags, "heights=one-inverted")
+	} else if hmode == 0 {
+		tags = append(tags, "heights=mixed-equal")
+	}
+	for i, t := range raw {
 		a, b := mx, mn
 		if hmode == 0 {
-			a, b = 7.5, 7.5
-		} else if hmode == 1 {
+			v := []float64{0, 7.5, -3, math.Inf(1), math.Copysign(0, -1)}[g.Intn(5)]
+			a, b = v, v
+		}
+		if i == inv {
 			a, b = -1, 3
+			if g.Chance(0.3) {
+				a, b = math.NaN(), 0
+			}
 		}
 		items = append(items, w.L(w.I(t.z), w.I(t.k), w.I(t.vz), w.I(t.vi), w.F(a), w.F(b)))
 	}
 	if items == nil {
 		items = w.List{}
 	}
-	if hmode == 1 {
-		tags = append(tags, "heights=inverted")
-	}
 	if sid {
 		z := clamp(z0+g.Int63n(5)-2, 0, 35)
-		for expansion(zmin, vmin, z, z) > 256 {
+		if shape < 5 {
+			z = clamp(min64(zmin, vmin)-g.Int63n(3), 0, 35)
+		} else if shape < 11 && vmin >= 31 {
+			z = g.Pick(34, 35)
+		}
+		for expansion(zmin, vmin, z, z)*float64(n+1) > 1500 {
 			z--
 		}
 		if z < 0 {
@@ -924,17 +1043,28 @@ func (e *emitter) q2eCase(fn string) {
 		return
 	}
 	var oh, ov int64
-	for {
+	for try := 0; ; try++ {
 		oh = clamp(z0+g.Int63n(7)-3, 0, 35)
 		ov = clamp(v0+g.Int63n(9)-4, 0, 35)
 		if g.Chance(0.3) {
 			oh, ov = z0, v0
 		}
+		if try > 40 {
+			oh, ov = clamp(zmin+g.Int63n(3)-1, 0, 35), clamp(vmin+g.Int63n(3)-1, 0, 35)
+		}
+		if try > 80 {
+			oh, ov = zmin, vmin
+		}
+		if shape < 5 {
+			oh, ov = clamp(zmin-g.Int63n(4), 0, 35), clamp(vmin-g.Int63n(5), 0, 35)
+		} else if shape < 11 {
+			oh, ov = g.Pick(34, 35), clamp(vmin-g.Int63n(3), 0, 35)
+		}
 		if expansion(zmin, vmin, oh, ov) <= 256 {
 			break
 		}
 	}
-	if g.Chance(0.04) {
+	if shape >= 11 && g.Chance(0.04) {
 		switch {
 		case vmin >= 30 && g.Chance(0.5):
 			ov = 36
@@ -982,12 +1112,27 @@ func (e *emitter) roundTripCase() {
 	h0 := qzoom(g)
 	v0 := g.Zoom()
 	same := g.Chance(0.45)
-	specs := genSpecs(g, h0, v0, same)
+	shape := g.Intn(100)
+	var specs []idspec
+	switch {
+	case shape < 5: // long list, same zooms everywhere: the exact round trip on many IDs
+		same = true
+		specs = genSpecsN(g, h0, v0, true, false, 20+g.Intn(41))
+	case shape < 11: // one ID of zoom 31, back-conversion to horizontal zoom 34 / 35
+		h0, same = 31, false
+		specs = genSpecsN(g, h0, v0, true, false, 1)
+	default:
+		specs = genSpecs(g, h0, v0, same)
+	}
 	ids, tags := idStrings(g, specs, false)
+	hv := []float64{0, 0, 0, 100.5, -3, math.Copysign(0, -1)}[g.Intn(6)] // maxHeight == minHeight, not only 0
 	var oh, ov, bh, bv int64
 	if same {
 		oh, ov, bh, bv = h0, v0, h0, v0
 		tags = append(tags, "same-zooms")
+	} else if shape < 11 {
+		oh, ov, bh, bv = 31, v0, g.Pick(34, 35), clamp(v0-g.Int63n(3), 0, 35)
+		tags = append(tags, "back-zoom-34-35")
 	} else {
 		oh, ov = outZooms(g, h0, v0, 64)
 		for {
@@ -1003,14 +1148,14 @@ func (e *emitter) roundTripCase() {
 	}
 	ids = guard(ids, false, oh, ov, bh, bv, 1500)
 	tags = append(tags, Tag("len=%d", len(ids)), Tag("oh=%d", oh))
-	e.run("RoundTrip", tags, len(ids) == 0, w.Strs(ids), w.I(oh), w.I(ov), w.F(0), w.F(0), w.I(bh), w.I(bv))
+	e.run("RoundTrip", tags, len(ids) == 0, w.Strs(ids), w.I(oh), w.I(ov), w.F(hv), w.F(hv), w.I(bh), w.I(bv))
 	e.last = func() {
-		e.run("RoundTrip", []string{"related", "permuted"}, len(ids) == 0, w.Strs(shuffled(g, ids)), w.I(oh), w.I(ov), w.F(0), w.F(0), w.I(bh), w.I(bv))
+		e.run("RoundTrip", []string{"related", "permuted"}, len(ids) == 0, w.Strs(shuffled(g, ids)), w.I(oh), w.I(ov), w.F(hv), w.F(hv), w.I(bh), w.I(bv))
 	}
 }
 
 func init() {
-	Scale["C11"] = 16000
+	Scale["C11"] = 12000
 	Registry["C11"] = func(r *run.Runner, g *Gen, n int) {
 		r.Register(fnEncode(), fnDecode(), fnRoundTripKey(), fnDedup(), fnQCheck(), fnE2Q(), fnS2Q(), fnE2QA(), fnQ2E(), fnQ2S(), fnRoundTrip())
 		if n == 0 {
